@@ -220,7 +220,7 @@ def judge_case(d, obs=None):
     """evaluates the text of C13 on what the implementation returned; -> list of violated clauses"""
     bad = _judge_case(d, obs)
     if bad and inf_only(d):
-        bad = ["inf_only: " + b for b in bad]
+        bad = ["inf_only: " + b if ("not accepted" in b or "NaN" in b or "not inside" in b) else b for b in bad]
     return bad
 
 
@@ -505,7 +505,7 @@ def report(found, d, bad, obs):
     for cl in bad:
         k = clause_class(cl)
         if k not in found or len(d["values"]) < len(found[k]["case"]["values"]):
-            found[k] = dict(case=dict(d, inf_only=True) if inf_only(d) else d, clauses=bad,
+            found[k] = dict(case=dict(d, inf_only=True) if cl.startswith("inf_only: ") else d, clauses=bad,
                             observed=obs if obs[0] == "err" else list(obs[:2]) + [obs[2][:12]])
         found[k]["count"] = found[k].get("count", 0) + 1 if found[k]["case"] is not d else found[k].get("count", 0) + 1
 
@@ -514,9 +514,11 @@ def finalise(found):
     out = []
     for k, f in found.items():
         m = minimise(f["case"], lambda c: k in {clause_class(x) for x in judge_case(c)})
-        if inf_only(m):
+        m = {x: v for x, v in m.items() if x != "inf_only"}
+        cl = judge_case(m)
+        if any(c.startswith("inf_only: ") for c in cl):
             m = dict(m, inf_only=True)
-        out.append(dict(case=m, clauses=judge_case(m), observed=run_impl(m), clause_class=k))
+        out.append(dict(case=m, clauses=cl, observed=run_impl(m), clause_class=k))
     return out
 
 
